@@ -182,6 +182,11 @@ def compare(R, E, op, a, b, node):
         return (not r) if isinstance(r, bool) else z3.Not(r)
     if isinstance(a, NdArr) or isinstance(b, NdArr):
         return npmodel.arr_compare(R, E, op, a, b, node)
+    chook = getattr(R, "compare_hook", None)
+    if chook is not None:
+        r = chook(E, op, a, b, node)
+        if r is not NotImplemented:
+            return r
     if isinstance(a, HavocNone) or isinstance(b, HavocNone):
         raise Unsupported("comparison of loop-havocked None-initialised variable")
     if isinstance(op, (ast.Eq, ast.NotEq)):
@@ -492,10 +497,10 @@ def getattr_(R, E, base, attr, node):
     if isinstance(base, RepoClass):
         if attr in base.methods:
             m = base.methods[attr]
-            return Closure(m, None, None)
+            return Closure(m, None, base if "classmethod" in m.decorators else None)
         m = E.find_method(base, attr)
         if isinstance(m, RepoFunc):
-            return Closure(m, None, None)
+            return Closure(m, None, base if "classmethod" in m.decorators else None)
         if m is not None:
             return ExternFn(m)
         if attr == "__name__":
@@ -520,6 +525,13 @@ def getattr_(R, E, base, attr, node):
         return ExternFn(base.name + "." + attr, base.self_obj)
     if isinstance(base, Raised):
         return ()
+    if type(base).__name__ == "DType":
+        if attr == "type":
+            return base                    # numpy scalar type of the dtype: accepted wherever a dtype is
+        if attr == "name":
+            return base.name
+        if attr == "kind":
+            return {"f": "f", "i": "i", "b": "b", "u": "u"}.get(base.name[0], "O")
     if isinstance(base, ClassOf) and attr == "__name__" and isinstance(base.obj, Obj) and isinstance(base.obj.fields.get("$class"), str):
         return base.obj.fields["$class"]
     for h in R.attr_hooks:
@@ -559,7 +571,8 @@ def has_attr(R, E, base, attr):
     if isinstance(base, ClassOf):
         return has_attr(R, E, base.obj, attr) and not (attr.endswith("_") and not attr.startswith("_"))
     if isinstance(base, NdArr):
-        return attr in ("shape", "dtype", "T", "ravel", "copy", "sum", "astype", "reshape", "mean", "tolist")
+        return attr in ("shape", "dtype", "T", "ravel", "copy", "sum", "astype", "reshape", "mean", "tolist", "__array__", "ndim", "size",
+                        "min", "max", "argsort", "flatten", "fill", "any", "all")
     if isinstance(base, Opaque):
         return R.opaque_hasattr(E, base, attr)
     if isinstance(base, (Closure, LambdaFn, ExternFn)):
